@@ -90,3 +90,99 @@ def module_imports(tree: ast.Module) -> dict:
             for a in n.names:
                 out[a.asname or a.name] = f"{n.module}.{a.name}"
     return out
+
+
+class _Rename(ast.NodeTransformer):
+    def __init__(self, mapping):
+        self.mapping = mapping
+
+    def visit_Name(self, node):
+        if node.id in self.mapping:
+            return ast.copy_location(ast.Name(id=self.mapping[node.id],
+                                              ctx=node.ctx), node)
+        return node
+
+
+def desugar_effectful_dictcomps(fnode, is_contract_function):
+    """`T = {K: V for a, b in X.items()}` where V calls a function under
+    contract is read as the equivalent loop
+
+        _dcN = {}
+        for _dcN_a, _dcN_b in X.items():
+            _dcN[K'] = V'          (K', V' = K, V with a, b renamed)
+        T = _dcN
+
+    (a comprehension has its own scope: the loop variables get fresh names and
+    the target is bound only after the loop, exactly as in the original).  The
+    loop then needs an invariant like any other loop.  Returns the number of
+    rewrites; the function node is modified in place."""
+    count = [0]
+
+    def calls_contract(v):
+        for n in ast.walk(v):
+            if isinstance(n, ast.Call) and isinstance(n.func, ast.Name) and \
+                    is_contract_function(n.func.id):
+                return True
+        return False
+
+    def rewrite_block(body):
+        out = []
+        for stmt in body:
+            for fld in ("body", "orelse", "finalbody"):
+                if hasattr(stmt, fld) and isinstance(getattr(stmt, fld), list) \
+                        and not isinstance(stmt, (ast.FunctionDef,
+                                                  ast.AsyncFunctionDef,
+                                                  ast.ClassDef)):
+                    setattr(stmt, fld, rewrite_block(getattr(stmt, fld)))
+            val = None
+            if isinstance(stmt, ast.Assign) and len(stmt.targets) == 1 and \
+                    isinstance(stmt.targets[0], ast.Name):
+                val, tgt = stmt.value, stmt.targets[0]
+            elif isinstance(stmt, ast.AnnAssign) and stmt.value is not None \
+                    and isinstance(stmt.target, ast.Name):
+                val, tgt = stmt.value, stmt.target
+            if isinstance(val, ast.DictComp) and len(val.generators) == 1 and \
+                    not val.generators[0].ifs and \
+                    not val.generators[0].is_async and \
+                    isinstance(val.generators[0].target, ast.Tuple) and \
+                    all(isinstance(e, ast.Name)
+                        for e in val.generators[0].target.elts) and \
+                    calls_contract(val.value):
+                count[0] += 1
+                g = val.generators[0]
+                tmp = f"_dc{count[0]}"
+                mp = {e.id: f"{tmp}_{e.id}" for e in g.target.elts}
+                ren = _Rename(mp)
+                key = ren.visit(ast.parse(ast.unparse(val.key), mode="eval").body)
+                value = ren.visit(ast.parse(ast.unparse(val.value),
+                                            mode="eval").body)
+                init = ast.Assign(targets=[ast.Name(id=tmp, ctx=ast.Store())],
+                                  value=ast.Dict(keys=[], values=[]))
+                loop = ast.For(
+                    target=ast.Tuple(elts=[ast.Name(id=mp[e.id], ctx=ast.Store())
+                                           for e in g.target.elts],
+                                     ctx=ast.Store()),
+                    iter=g.iter,
+                    body=[ast.Assign(targets=[ast.Subscript(
+                        value=ast.Name(id=tmp, ctx=ast.Load()), slice=key,
+                        ctx=ast.Store())], value=value)],
+                    orelse=[])
+                fin = ast.Assign(targets=[ast.Name(id=tgt.id, ctx=ast.Store())],
+                                 value=ast.Name(id=tmp, ctx=ast.Load()))
+                for n_ in (init, loop, fin):
+                    ast.copy_location(n_, stmt)
+                    ast.fix_missing_locations(n_)
+                    for sub in ast.walk(n_):
+                        if not hasattr(sub, "lineno") or sub.lineno is None:
+                            sub.lineno = stmt.lineno
+                            sub.col_offset = 0
+                # keep real line numbers of the value expression
+                for sub in ast.walk(loop):
+                    sub.lineno = getattr(sub, "lineno", stmt.lineno) or stmt.lineno
+                out.extend([init, loop, fin])
+                continue
+            out.append(stmt)
+        return out
+
+    fnode.body = rewrite_block(fnode.body)
+    return count[0]
